@@ -4,8 +4,9 @@ import PyxisVerif.Model.Lexer
 # Printing a module: abstract syntax → tokens → text
 
 `printK` is the token-level printer (the inverse of `Parse.parseK` on well-formed modules,
-`Props/C18.lean`); `tr` chooses whether the `,`/`;`-terminated lists end with their
-separator.  `spell` writes one token; `printText` puts one blank after every token, except
+`Props/C18.lean`); `tr` chooses the optional spellings: whether the `,`/`;`-terminated lists end
+with their separator, and whether a type definition without statements is written `type T;`
+(`tr = true`) or `type T { }` (`tr = false`).  `spell` writes one token; `printText` puts one blank after every token, except
 after a punctuation character that is marked `joint` (`::`, `->`).  `render ts τ` (second half
 of the file) writes tokens under an arbitrary lay-out `τ : Trivia`; `Trivia.ofSeed` is a
 deterministic pseudo-random lay-out for the checks.
@@ -78,10 +79,16 @@ def pOptExpr : Option G.Expr → List K
 def pEnumStmt (tr : Bool) (s : G.EnumStmt) : List K :=
   pAttrs false tr s.attrs ++ (.ident s.name :: pOptExpr s.expr)
 
+/-- the body of a type definition: `{ stmt, … }`; a definition without statements has the
+    second spelling `;` (`parse_type_definition` peeks `Token![;]`), which is written when the
+    optional spellings are switched on (`tr`) -/
+def pTypeBody (tr : Bool) (ss : List G.Stmt) : List K :=
+  if tr && ss.isEmpty then [.punct ';' false] else pGroup .brace (pStmt tr) ',' tr ss
+
 def pItemDef (tr : Bool) (i : G.Item) : List K :=
   match i.inner with
   | .type d => pAttrs false tr d.attrs ++ pVis i.vis ++
-      (.ident "type" :: .ident i.name :: pGroup .brace (pStmt tr) ',' tr d.stmts)
+      (.ident "type" :: .ident i.name :: pTypeBody tr d.stmts)
   | .enum d => pAttrs false tr d.attrs ++ pVis i.vis ++
       (.ident "enum" :: .ident i.name :: .punct ':' false :: pTy d.ty ++
         pGroup .brace (pEnumStmt tr) ',' tr d.stmts)
